@@ -343,6 +343,8 @@ fn decode_frame(
                 partial.buf.extend_from_slice(&bytes[frame::HEADER_LEN..]);
             }
 
+            hpack.continue_block();
+
             match partial
                 .frame
                 .load_hpack(&mut partial.buf, max_header_list_size, hpack)
